@@ -298,6 +298,24 @@ def do_check(a):
         for f in r.get("failures", []):
             f["proof"], f["case_index"] = r["proof"], r["case_index"]
             b_fail.append(f)
+    # second, deeper bounded pass for proof cases the verifier left undecided (a changed tree may push a
+    # function outside the engine's reach; the run-time contract can still produce a concrete violation)
+    weak = set()
+    for r in sres:
+        if r.get("error") or any(o["verdict"] == "unknown" for o in r["obligations"].values()):
+            weak.add((r["proof"], r.get("case_index")))
+    failed_keys = {(f["proof"], f["case_index"]) for f in b_fail}
+    boost = [(n_, ci, None, seed + 1, ns * 10) for (n_, ci, _, _, ns) in cjobs if (n_, ci) in weak and (n_, ci) not in failed_keys]
+    if boost:
+        pp2 = _pool(False, prop, max(2, a.jobs // 2))
+        for r in pp2.map(_w_concrete, boost, chunksize=1):
+            b_eval += r.get("evaluations", 0)
+            b_rej += r.get("rejected", 0)
+            b_clauses += r.get("clauses", 0)
+            for f in r.get("failures", []):
+                f["proof"], f["case_index"] = r["proof"], r["case_index"]
+                b_fail.append(f)
+        pp2.close()
     diff_bad = []
     dd = {(r["proof"], r["case_index"]): r for r in dres}
     for r in cres:
